@@ -252,6 +252,23 @@ def check_state(lib, host, part, st, cone, jac, ident, thorough):
         _hist(part, "disc", max(e_q, e_f))
         if not np.array_equal(np.array(d.qacc), qacc_disc):
             bad("mj_inverse with invdiscrete does not restore qacc", name, "qacc changed")
+        # history dimension of the discrete inverse: the same call, stand-alone, on the never-reset mjData whose derived
+        # fields (inertia factorisation included) were left by the previous lattice state, must give the same answer as
+        # the call that followed mj_step on this mjData
+        d2 = host.d_used
+        lib.mj_copyState(m, d, d2, STATE_INTEGRATION)
+        d2.qacc[:] = qacc_disc
+        lib.mj_inverse(m, d2)
+        if int(d2.nefc) == nefc2:
+            s_q = float(np.abs(np.array(d2.qfrc_inverse) - np.array(d.qfrc_inverse)).max()) / qs2
+            s_f = float(np.abs(np.array(d2.efc_force[:nefc2]) - np.array(d.efc_force[:nefc2])).max()) / fs2
+            part.add("standalone_discrete_inverse")
+            if not (s_q <= TOL_DISC and s_f <= TOL_DISC):
+                bad("stand-alone discrete inverse on a used mjData differs from the one that follows a forward pass", name,
+                    "qfrc_inverse rel diff %.3g, efc_force rel diff %.3g" % (s_q, s_f))
+        else:
+            bad("stand-alone discrete inverse on a used mjData builds a different constraint set", name,
+                "nefc %d vs %d" % (int(d2.nefc), nefc2))
         if not (e_q <= TOL_DISC and e_f <= TOL_DISC):
             # one root cause, one key: was this step integrated explicitly (discrete == continuous acceleration) and does the
             # *continuous* inverse at the same qacc satisfy the identity?  then the discrete->continuous conversion itself is
